@@ -48,6 +48,11 @@ var c18Tmpls = []c18Tmpl{
 	{"(defmacro mk (f) (list f 5)) (list 1 (mk car))", "call:mk"},
 	{"(defmacro mk2 (f x) (list f ''built x)) (progn (mk2 error 7))", "call:mk2"},
 	{"(defmacro tw (x) (quasiquote (progn (unquote x) (unquote x)))) (tw (car 5))", "call:car"},
+	// template lists with a DIRECT unquote-splicing child keep the position they were written at
+	{"(defmacro raise-with (&rest args) (quasiquote (error 'boom (unquote-splicing args)))) (progn (raise-with 1 2))", "call:error"},
+	{"(defmacro car-of (&rest xs) (quasiquote (car (unquote-splicing xs)))) (list (car-of 5))", "call:car"},
+	{"(defmacro m (&rest xs) (quasiquote (list (unquote-splicing xs) BAD (unquote-splicing xs)))) (m 1 2)", "sym:BAD"},
+	{"(defmacro m (&rest xs) (quasiquote (progn (unquote-splicing xs) (nth 5 'x)))) (m 1 2)", "call:nth"},
 	{"(defun thrower () (error 'a-err 3)) (handler-bind ((a-err (lambda (c &rest x) (ignore-errors (car 5)) (rethrow)))) (thrower))", "call:error"},
 }
 
